@@ -101,8 +101,13 @@ def run_case(sess_kind, stream: bytes, cuts):
     for ch in C.split(stream, cuts):
         delivered += ch
         units, off, err = ber.frame_count(delivered)
+        kind = (len(stream) + len(delivered)) % 3
+        buf = bytearray(ch) if kind else None
+        arg = ch if kind == 0 else (buf if kind == 1 else memoryview(buf))
         try:
-            res = sess.receive(ch)
+            res = sess.receive(arg)
+            if buf is not None:
+                buf[:] = b"\xAA" * len(buf)
         except sl.ProtocolError:
             raised = True
             obs["outcome:raised"] = 1
